@@ -35,8 +35,11 @@ import (
 )
 
 const pkgDir = "/repo/extractor/filesystem"
-const structName = "walkContext"
-const mutexName = "statusMu"
+
+// the struct whose fields are tabulated and the mutex field that guards them; -struct / -mutex select another pair
+// (C16(b): RequestCache / mu in clients/datasource)
+var structName = "walkContext"
+var mutexName = "statusMu"
 
 func fail(format string, a ...any) {
 	fmt.Fprintf(os.Stderr, "tickerdump: "+format+"\n", a...)
@@ -76,6 +79,13 @@ func fn(name string) int {
 func isWCType(e ast.Expr) bool {
 	if s, ok := e.(*ast.StarExpr); ok {
 		e = s.X
+	}
+	// an instantiated / parameterised generic type: RequestCache[K, V]
+	switch g := e.(type) {
+	case *ast.IndexExpr:
+		e = g.X
+	case *ast.IndexListExpr:
+		e = g.X
 	}
 	id, ok := e.(*ast.Ident)
 	return ok && id.Name == structName
@@ -385,8 +395,12 @@ func (w *walker) expr(e ast.Expr, held bool, write bool) {
 			return
 		}
 		w.expr(x.Fun, held, false)
-		for _, a := range x.Args {
-			w.expr(a, held, false)
+		mut := false
+		if id, ok := x.Fun.(*ast.Ident); ok && (id.Name == "delete" || id.Name == "clear") {
+			mut = true // delete(x.f, k) / clear(x.f) mutate the map the field holds
+		}
+		for i, a := range x.Args {
+			w.expr(a, held, mut && i == 0)
 		}
 	case *ast.UnaryExpr:
 		w.expr(x.X, held, write || x.Op == token.AND)
@@ -398,8 +412,8 @@ func (w *walker) expr(e ast.Expr, held bool, write bool) {
 		w.expr(x.X, held, false)
 		w.expr(x.Y, held, false)
 	case *ast.IndexExpr:
-		// m[k] = v mutates the map/slice the field points to, not the field; still a read of the field
-		w.expr(x.X, held, false)
+		// x.f[k] = v mutates the map/slice the field holds: for race purposes a write to what the field guards
+		w.expr(x.X, held, write)
 		w.expr(x.Index, held, false)
 	case *ast.SliceExpr:
 		w.expr(x.X, held, false)
@@ -488,6 +502,11 @@ func closure(roots []int) []int {
 func main() {
 	out := flag.String("out", "/verif/lean/Scalibr/Gen/Ticker.lean", "output file")
 	src := flag.String("dir", pkgDir, "package directory (the check never changes this)")
+	flag.StringVar(&structName, "struct", structName, "struct type whose fields are tabulated")
+	flag.StringVar(&mutexName, "mutex", mutexName, "name of the mutex field")
+	ns := flag.String("ns", "Scalibr.Gen.Ticker", "Lean namespace of the generated table")
+	only := flag.String("only", "", "comma-separated file names to read (default: every non-test file of the package)")
+	anyG := flag.Bool("anygoroutine", false, "no `go` statement in the package: every function may run on any goroutine (library type used concurrently by its callers)")
 	flag.Parse()
 	os.Remove(*out)
 	ents, err := os.ReadDir(*src)
@@ -498,6 +517,9 @@ func main() {
 	for _, e := range ents {
 		n := e.Name()
 		if e.IsDir() || !strings.HasSuffix(n, ".go") || strings.HasSuffix(n, "_test.go") || strings.HasPrefix(n, "verif_") {
+			continue
+		}
+		if *only != "" && !strings.Contains(","+*only+",", ","+n+",") {
 			continue
 		}
 		f, err := parser.ParseFile(fset, filepath.Join(*src, n), nil, parser.SkipObjectResolution)
@@ -588,10 +610,17 @@ func main() {
 		w := &walker{fn: id, name: name, vars: vars, goN: &n, topBlk: fd.Body}
 		w.block(fd.Body, false)
 	}
-	if len(goRoots) == 0 {
+	if len(goRoots) == 0 && !*anyG {
 		fail("no `go` statement found in %s: the status ticker moved", *src)
 	}
 	ticker := closure(goRoots)
+	if *anyG {
+		// callers use the type from several goroutines: both "sides" are all functions that touch it
+		ticker = nil
+		for i := range funcs {
+			ticker = append(ticker, i)
+		}
+	}
 	isTicker := map[int]bool{}
 	for _, t := range ticker {
 		isTicker[t] = true
@@ -602,7 +631,7 @@ func main() {
 	}
 	var wroots []int
 	for _, id := range declIDs {
-		if !isTicker[id] {
+		if !isTicker[id] || *anyG {
 			wroots = append(wroots, id)
 		}
 	}
@@ -628,8 +657,8 @@ func main() {
 	var sb strings.Builder
 	sb.WriteString("-- GENERATED by /verif/translator/cmd/tickerdump from /repo's working tree on every run of ./check C16.\n")
 	sb.WriteString("-- Never edit by hand: the file is deleted and rewritten.\n")
-	sb.WriteString("import Scalibr.Model.Ticker\nnamespace Scalibr.Gen.Ticker\nopen Scalibr.Ticker\n\n")
-	sb.WriteString("/-- fields of `walkContext` (extractor/filesystem/filesystem.go), index = field id -/\ndef fields : List String := [\n")
+	sb.WriteString("import Scalibr.Model.Ticker\nnamespace " + *ns + "\nopen Scalibr.Ticker\n\n")
+	fmt.Fprintf(&sb, "/-- fields of `%s` (%s), index = field id -/\ndef fields : List String := [\n", structName, strings.TrimPrefix(*src, "/repo/"))
 	for i, f := range fields {
 		sep := ","
 		if i == len(fields)-1 {
@@ -637,7 +666,7 @@ func main() {
 		}
 		fmt.Fprintf(&sb, "  %s%s  -- %d\n", leanStr(f), sep, i)
 	}
-	sb.WriteString("]\n\n/-- functions touching a walkContext, index = function id; `F.goN` = the N-th `go` statement of F -/\ndef funcs : List String := [\n")
+	sb.WriteString("]\n\n/-- functions of the package, index = function id; `F.goN` = the N-th `go` statement of F -/\ndef funcs : List String := [\n")
 	for i, f := range funcs {
 		sep := ","
 		if i == len(funcs)-1 {
@@ -663,7 +692,7 @@ func main() {
 		}
 		fmt.Fprintf(&sb, "  ⟨%d, %d, %s, %s, %s, %d⟩%s  -- %s in %s\n", a.field, a.fn, leanBool(a.write), leanBool(a.guarded), leanBool(a.init), a.line, sep, fields[a.field], funcs[a.fn])
 	}
-	sb.WriteString("]\n\ndef table : Table := ⟨fields.length, mutexField, tickerFuncs, walkerFuncs, accesses, irregular.length⟩\n\nend Scalibr.Gen.Ticker\n")
+	sb.WriteString("]\n\ndef table : Table := ⟨fields.length, mutexField, tickerFuncs, walkerFuncs, accesses, irregular.length⟩\n\nend " + *ns + "\n")
 	if err := os.WriteFile(*out, []byte(sb.String()), 0o644); err != nil {
 		fail("%v", err)
 	}
